@@ -9,7 +9,7 @@ from ..callgraph import callgraph
 from ..cfg import cfg_of, edges_dominate, must_reach, node_calls, node_dominates, reach
 from ..defuse import def_value, defs_of, derives_from, reaching_defs, resolve_alias
 from ..esp import UNKNOWN, SELF, run_function, run_method, valuations
-from ..model import Repo, attr_chain, body_nodes, norm, short
+from ..model import Repo, ancestors, attr_chain, body_nodes, norm, short
 from .C04 import approval_edges
 from .common import trace_str
 
@@ -34,6 +34,7 @@ def check(repo: Repo, rep, tier):
     storage_no_cache(repo, rep)
     persist_unique(repo, rep)
     persist_pattern(repo, rep)
+    remove_literal(repo, rep)
     from .C03 import import_scope
 
     # whether a module `uses externals` is decided by the same import scan
@@ -232,6 +233,7 @@ def persist_remove(repo: Repo, rep):
         steps = 0
         src_ok = False
         rec = None
+        loops_on_chain = []
         while cur is not None and steps < 8:
             steps += 1
             if isinstance(cur, ast.Name):
@@ -242,6 +244,7 @@ def persist_remove(repo: Repo, rep):
                 d = ds[0]
                 chain.append(f"{cur.id}@L{d.line}")
                 if d.kind == "for":
+                    loops_on_chain.append(d.ast)
                     cur, node = d.ast.iter, d
                 else:
                     cur, node = def_value(d, cur.id), d
@@ -268,6 +271,14 @@ def persist_remove(repo: Repo, rep):
         if not src_ok or rec is None:
             ok = False
             why = why or "source of the persisted name not recognised"
+        # every file's externals: the persist call stands inside the loops its name was taken from (the loop over the names and the
+        # loop over the recorder's files) - behind them it sees only the values of the last iteration
+        if ok:
+            anc = set(id(x) for x in ancestors(pc))
+            outside = [lp for lp in loops_on_chain if id(lp) not in anc]
+            if outside:
+                ok = False
+                why = f"the call stands behind the loop `for {norm(outside[-1].target)} in {short(outside[-1].iter, 30)}` it takes its name from: only the last file's externals are persisted, the references written into the other files point to data that stays -new"
         # the recorder is the one written by fix_all afterwards
         after = [(fn, fc) for fn, fc in fixes if isinstance(fc.func, ast.Attribute) and isinstance(fc.func.value, ast.Name) and fc.func.value.id == rec and fn in reach(cfg, [pn])]
         if ok and not after:
@@ -382,6 +393,25 @@ def persist_unique(repo: Repo, rep):
                         construct=f"{m.name}:{call.func.attr}",
                     )
     rep.floor("R-PERSIST-UNIQUE", "rename / unlink sites in name-addressed storage methods", n, 2)
+
+
+def remove_literal(repo: Repo, rep):
+    rep.rule(
+        "R-REMOVE-LITERAL",
+        "remove(name) is handed *file names* of the storage (the result of storage.list() minus what is referenced): it looks the name up as it is.  "
+        "Parsing it as a reference (`external(name)`) rejects every `<hash>-new.<suffix>` name with a ValueError - trim with an unapproved fresh external "
+        "ends the session with an internal error",
+    )
+    c = repo.cls("DiscStorage", "_external.py")
+    r = c.methods.get("remove")
+    if r is None:
+        rep.undecided("R-REMOVE-LITERAL", "DiscStorage.remove not found")
+        return
+    parses = [x for x in body_nodes(r.node) if isinstance(x, ast.Call) and norm(x.func) == "external"]
+    if parses:
+        rep.violation("R-REMOVE-LITERAL", r, parses[0], f"DiscStorage.remove parses its argument with `{short(parses[0], 30)}`: the names of not yet persisted files (`<hash>-new.txt`) are no references - ValueError at session end", construct="remove:parses-name")
+    else:
+        rep.ok("R-REMOVE-LITERAL", r, r.node, "remove() looks the file name up literally")
 
 
 def persist_pattern(repo: Repo, rep):
@@ -556,9 +586,28 @@ def files_registered(repo: Repo, rep):
         rep.violation("R-FILES-REGISTERED", f, f.node, "snapshot() never adds the calling file to state().files_with_snapshots: every external looks unused, `--inline-snapshot=trim` empties the storage", construct="no-registration")
         return
     # the only edges that may by-pass the registration: the "no module / no file" answers of tests on the module object
+    # the module object: whatever variable holds the result of inspect.getmodule(frame) - and nothing but that result
+    modvars = set()
+    for st_ in cfg.stmts(ast.Assign):
+        v_ = st_.ast.value
+        for t_ in st_.ast.targets:
+            if not isinstance(t_, ast.Name):
+                continue
+            if isinstance(v_, ast.Call) and norm(v_.func).endswith("getmodule"):
+                modvars.add(t_.id)
+            elif any(isinstance(x, ast.Call) and norm(x.func).endswith("getmodule") for x in ast.walk(v_)):
+                rep.violation(
+                    "R-FILES-REGISTERED",
+                    f,
+                    st_.ast,
+                    f"`{short(st_.ast, 70)}`: whether the calling module is looked up at all depends on something else than the module (e.g. on the value of the snapshot): a file whose snapshots are all still "
+                    "empty is not registered, the externals a `create` writes into it look unused and a `trim` in the same session deletes them",
+                    construct="module-conditional",
+                )
+                modvars.add(t_.id)
     allowed = []
     for c in cfg.conds():
-        if any(isinstance(x, ast.Name) and "module" in x.id for x in ast.walk(c.ast)):
+        if any(isinstance(x, ast.Name) and x.id in modvars for x in ast.walk(c.ast)):
             for b_, lab in c.succ:
                 if lab in ("T", "F") and not any(a_ in reach(cfg, [b_]) or a_ is b_ for a_ in adds):
                     allowed.append((c, lab))
